@@ -320,16 +320,11 @@ theorem weaveS_erase : (s : PStmt) → ∀ σ cur n ρ, eraseS (weaveS s σ cur 
   | .ifS c t e, σ, cur, n, ρ => by
       simp only [weaveS, ifFinish_stmt, erasePS]
       rw [weaveB_erase t, weaveB_erase e]
-  | .forS lb ub st iv body [], σ, cur, n, ρ => by
+  | .forS lb ub st iv body car, σ, cur, n, ρ => by
       simp only [weaveS]
       split
       · simp only [eraseS, erasePS]; rw [weaveB_erase body]
       · simp only [forFinish_stmt, erasePS]; rw [weaveB_erase body]
-  | .forS lb ub st iv body (c :: cs), σ, cur, n, ρ => by
-      simp only [weaveS]
-      split
-      · simp only [eraseS, erasePS]; rw [weaveB_erase body]
-      · simp only [forFinishP_stmt, erasePS]; rw [weaveB_erase body]
 theorem weaveB_erase : (b : PBlock) → ∀ σ cur n ρ, erase (weaveB b σ cur n ρ).blk = eraseP b
   | .nil, _, _, _, _ => by simp [weaveB, erase, eraseP]
   | .cons s r, σ, cur, n, ρ => by
